@@ -141,8 +141,13 @@ func c14Exec(p c14Program) (*sched.Result, []lcall) {
 		if p.Init >= 2 {
 			_ = a.Start(agentID(1), agentTime(3))
 		}
-		if p.Init >= 3 {
+		if p.Init >= 3 && p.Init < 100 {
 			_ = a.Start(agentID(2), agentTime(4))
+		}
+		if p.Init >= 100 { // many transactions, all expired at Collect(t5)
+			for i := 4; i < 4+p.Init; i++ {
+				_ = a.Start(agentID(i), agentTime(1))
+			}
 		}
 		for ti, ops := range p.Threads {
 			ops := ops
@@ -170,8 +175,13 @@ func c14Linearizable(p c14Program, calls []lcall) bool {
 	if p.Init >= 2 {
 		model.Start("B", 3)
 	}
-	if p.Init >= 3 {
+	if p.Init >= 3 && p.Init < 100 {
 		model.Start("C", 4)
+	}
+	if p.Init >= 100 {
+		for i := 4; i < 4+p.Init; i++ {
+			model.Start(agentIDName(i), 1)
+		}
 	}
 	used := make([]bool, n)
 	var rec func(m *ref.AgentModel, placed int) bool
@@ -309,7 +319,11 @@ func init() {
 					c.Res.Exhaustive = false
 					return
 				}
-				st := explore.Explore(c14Run(p), explore.Options{Preemptions: pb, EnvDevs: -1, Deadline: c.Deadline})
+				bound := pb
+				if p.Init >= 100 && bound > 2 {
+					bound = 2 // ~110 scheduling points per execution: two preemptions already give ~10^4 executions
+				}
+				st := explore.Explore(c14Run(p), explore.Options{Preemptions: bound, EnvDevs: -1, Deadline: c.Deadline})
 				if st.HarnessError != "" {
 					c.Fail("%s on %v", st.HarnessError, p)
 				}
@@ -383,6 +397,16 @@ func init() {
 						}
 					}
 				}
+			}
+			// more expired transactions than one Collect pass may hold (the source sizes its scratch for 100):
+			// Collect must still be one atomic step against Stop / Close / Start of those ids
+			for _, other := range [][]agentOp{
+				{{Kind: "stop", ID: 4 + 103}, {Kind: "stop", ID: 4}},
+				{{Kind: "stop", ID: 4}, {Kind: "stop", ID: 4 + 103}},
+				{{Kind: "close"}},
+				{{Kind: "start", ID: 4 + 50, T: 1}, {Kind: "stop", ID: 4 + 102}},
+			} {
+				explored(c14Program{Init: 104, Mode: 0, Threads: [][]agentOp{{{Kind: "collect", T: 5}}, other}})
 			}
 			// handler re-entering with Collect on the base programs of two threads x 1 operation
 			for init := 1; init <= 3; init++ {
